@@ -264,6 +264,39 @@ type oddNames struct {
 	In_     *inner
 }
 
+// fields promoted through several levels of embedding, with siblings at every level
+type emb7 struct{ Name7, Region7, Zone7 string }
+type emb6 struct {
+	emb7
+	Name6, Region6 string
+}
+type emb5 struct {
+	emb6
+	Name5, Region5 string
+}
+type emb4 struct {
+	emb5
+	Name4, Region4 string
+}
+type Emb3 struct {
+	Name, Region, Zone string
+	Names              []string
+}
+type Emb2 struct {
+	Emb3
+	Alpha, Beta string
+}
+type Emb1 struct {
+	Emb2
+	emb4
+	Gamma string
+}
+type embTop struct {
+	Emb1
+	Delta string
+	Sub   *embTop
+}
+
 type exoticT struct {
 	M    map[string]string
 	MP   map[string]*inner
@@ -291,6 +324,10 @@ func exotics() []interface{} {
 		exoticT{}, &exoticT{M: map[string]string{"a": "b"}, MP: map[string]*inner{"a": in}, PP: pin, Arr: [2]string{"a0", "a1"}, ArrP: [2]*inner{in, nil}, SS: [][]string{{"s0"}, nil}, B: []byte("bytes"), In: *in, PIn: in},
 		map[string]string{"key": "v"}, map[string]interface{}{"Key": "v"}, []string{"a"}, []*inner{in}, [1]inner{*in}, "plain string", 42, 3.5, true, nil, (*inner)(nil), (**inner)(nil), pin, &pin,
 		func() {}, make(chan int), errors.New("e"), struct{}{}, &struct{ Key *string }{},
+		&embTop{Emb1: Emb1{Emb2: Emb2{Emb3: Emb3{Name: "n3", Region: "r3", Zone: "z3", Names: []string{"ns1", "ns2"}}, Alpha: "a2", Beta: "b2"},
+			emb4: emb4{emb5: emb5{emb6: emb6{emb7: emb7{"n7", "r7", "z7"}, Name6: "n6", Region6: "r6"}, Name5: "n5", Region5: "r5"}, Name4: "n4", Region4: "r4"}, Gamma: "g1"}, Delta: "d0",
+			Sub: &embTop{Emb1: Emb1{Emb2: Emb2{Emb3: Emb3{Name: "sn3", Region: "sr3", Zone: "sz3"}}}}},
+		embTop{},
 		&oddNames{_ids: []string{"u1", "u2"}, _id: "u0", 名前: "n", 名前たち: []string{"n1"}, Key_2: "k2", Shard_1: []string{"s1", "s2"}, X_: "x", In_: in}, oddNames{_ids: []string{"v"}}, &oddNames{},
 		&pb.ApiConfig{}, &pb.ApiConfig{ChannelPool: &pb.ChannelPoolConfig{MaxSize: 3}, Method: []*pb.MethodConfig{{Name: []string{"m1", "m2"}, Affinity: &pb.AffinityConfig{AffinityKey: "k"}}, nil, {Name: nil}}},
 		(*pb.ApiConfig)(nil), &hw.HelloRequest{Name: "n"}, &hw.HelloReply{}, hw.HelloRequest{Name: "byvalue"},
@@ -303,6 +340,8 @@ func exotics() []interface{} {
 // ExoticLocators are tried against the exotic values.
 var ExoticLocators = []string{"key", "keys", "Key", "other", "inner.key", "inner", "any", "any.key", "anys", "anys.key", "m", "m.a", "mP.a.key", "pP.key", "pP", "arr", "arrP.key", "sS", "f", "c", "b", "u", "err", "in.key", "in.keys", "pIn.key", "pIn.keys",
 	"token", "items.key", "items.other", "items", "extra", "channelPool.maxSize", "channelPool", "method.name", "method.affinity.affinityKey", "method.affinity", "name", "message", "state", "sizeCache", "unknownFields", "", ".", "..", "key.", ".key", "key..x", "a.b.c.d.e.f", "kéy", "ключ", "key key", "KEY", "\x00", "key\n",
+	"region", "zone", "names", "alpha", "beta", "gamma", "delta", "name4", "region4", "name5", "region5", "name6", "region6", "name7", "region7", "zone7", "sub.name", "sub.region", "sub.zone", "sub.alpha", "sub.sub.name",
+	"emb1.name", "emb1.emb2.emb3.region", "emb3.zone", "emb2.beta",
 	"_ids", "_id", "名前", "名前たち", "key_2", "shard_1", "x_", "in_.key", "in_.keys", "in_._", "_", "__", "key_", "_key", "in__key", "_.key", "key._"}
 
 // reachable collects every string reachable in v.
@@ -330,6 +369,40 @@ func reachable(v reflect.Value, depth int, out map[string]bool) {
 		for it.Next() {
 			reachable(it.Key(), depth+1, out)
 			reachable(it.Value(), depth+1, out)
+		}
+	}
+}
+
+// normName: how a path segment is matched with a Go field name is the library's business (today: strings.Title);
+// the oracle only assumes that case and underscores are all that may differ.
+func normName(s string) string { return strings.ToLower(strings.ReplaceAll(s, "_", "")) }
+
+// namedStrings collects every string stored (directly, behind pointers/interfaces, or as an element of a slice/array)
+// in a struct field called name, anywhere in v.
+func namedStrings(v reflect.Value, name string, depth int, out map[string]bool) {
+	if !v.IsValid() || depth > 12 {
+		return
+	}
+	switch v.Kind() {
+	case reflect.Pointer, reflect.Interface:
+		if !v.IsNil() {
+			namedStrings(v.Elem(), name, depth+1, out)
+		}
+	case reflect.Struct:
+		for i := 0; i < v.NumField(); i++ {
+			if normName(v.Type().Field(i).Name) == name {
+				reachable(v.Field(i), 0, out)
+			}
+			namedStrings(v.Field(i), name, depth+1, out)
+		}
+	case reflect.Slice, reflect.Array:
+		for i := 0; i < v.Len(); i++ {
+			namedStrings(v.Index(i), name, depth+1, out)
+		}
+	case reflect.Map:
+		it := v.MapRange()
+		for it.Next() {
+			namedStrings(it.Value(), name, depth+1, out)
 		}
 	}
 }
@@ -445,6 +518,19 @@ func Check(c *Case) (failure string, labels map[string]int, nontrivial bool) {
 				if !reach[k] {
 					return fmt.Sprintf("soundness: returned key %q is not a string reachable in the message (locator %q, message %T %+v)", k, c.Locator, msg, msg), labels, true
 				}
+			}
+			// "the string values reached by following the path": whatever the shape of the value, a returned key is stored
+			// in a field that carries the name of the last path segment
+			segs := strings.Split(c.Locator, ".")
+			if last := segs[len(segs)-1]; last != "" {
+				named := map[string]bool{}
+				namedStrings(reflect.ValueOf(msg), normName(last), 0, named)
+				for _, k := range got {
+					if !named[k] {
+						return fmt.Sprintf("soundness: returned key %q is not stored in any field whose name matches %q (locator %q, message %T %+v)", k, last, c.Locator, msg, msg), labels, true
+					}
+				}
+				labels["keys-checked-against-field-name"]++
 			}
 		}
 		return "", labels, true
